@@ -2,12 +2,14 @@
 // operation being a scripted leaf completed on its own virtual thread, the future awaited /
 // dropped on a second one, a stop request on the awaiting receiver's token on a third one.
 //
-// program:  <v2|v1> <v|e|d> <drop|await|stop|conndrop> <nofault|fault> [realfree]
+// program:  <v2|v1> <v|e|d> <drop|await|stop|conndrop|allocthrow|connthrow> <nofault|fault> [realfree]
 //   v|e|d     how the spawned operation completes (value / error / done)
 //   drop      the future is destroyed without being connected
 //   await     connect + start, wait for the completion, destroy the future's operation state
 //   stop      like await, thread 2 requests stop on the receiver's stop source at any time
 //   conndrop  connect, then destroy the operation state without starting it (thread 2 requests stop)
+//   allocthrow / connthrow   the allocation / connect of the spawned sender throws inside spawn_future
+//             (strong exception guarantee: nothing leaked, nothing running, scope reference returned)
 //   fault     the copy of the value into the shared state throws (2nd move of the tracked value)
 //   realfree  the allocator really frees (for cfg shimasan17: ASan reports the use-after-free);
 //             default is to poison + quarantine so that a late access is visible in the trace
@@ -39,6 +41,7 @@ struct Run {
   // leaf
   void* leaf_op = nullptr; void (*leaf_complete)(void*, char) = nullptr;
   bool leaf_started = false; bool leaf_stop_seen = false;
+  bool connect_throw = false, spawn_failed = false;
   // future side
   inplace_stop_source ext;
   std::deque<std::function<void()>> queue;    // the scheduler of thread Fut
@@ -152,6 +155,7 @@ struct fleaf {
   static constexpr bool is_always_scheduler_affine = false;
   template <typename R>
   friend fleaf_op<remove_cvref_t<R>> tag_invoke(tag_t<unifex::connect>, const fleaf&, R&& r) {
+    if (G->connect_throw) { dsched::action("leaf.connect THROWS"); throw terr(9); }
     return fleaf_op<remove_cvref_t<R>>{(R&&)r};
   }
 };
@@ -230,7 +234,8 @@ std::vector<std::function<void()>> make_threads(char outcome, const std::string&
   std::vector<std::function<void()>> th;
   // 0: Op
   th.push_back([sh, outcome, fault] {
-    dsched::block_until([&] { return sh->leaf_started; });
+    dsched::block_until([&] { return sh->leaf_started || sh->spawn_failed; });
+    if (sh->spawn_failed) { sh->done[0] = true; return; }
     if (fault) sh->throw_on_move = 2;   // 1st move: nest receiver's by-value parameter; 2nd: into values_
     sh->leaf_complete(sh->leaf_op, outcome);
     sh->done[0] = true;
@@ -239,6 +244,21 @@ std::vector<std::function<void()>> make_threads(char outcome, const std::string&
   th.push_back([sh, prog] {
     dsched::name_range(&sh->ext.state_, sizeof(sh->ext.state_), "ext.state");
     name_scope(sh->scope);
+    if (prog == "allocthrow" || prog == "connthrow") {
+      sh->alloc_throw = prog == "allocthrow";
+      sh->connect_throw = prog == "connthrow";
+      try {
+        auto fut = spawn_future(fleaf{}, sh->scope, talloc<std::byte>{sh.get()});
+        dsched::action("spawned");
+      } catch (const std::bad_alloc&) {
+        dsched::action("spawn threw bad_alloc");
+      } catch (const terr& e) {
+        dsched::action("spawn threw terr %d", e.code);
+      }
+      sh->spawn_failed = true;
+      sh->done[1] = true;
+      return;
+    }
     {
       auto fut = spawn_future(fleaf{}, sh->scope, talloc<std::byte>{sh.get()});
       dsched::action("spawned");
@@ -288,6 +308,16 @@ std::vector<std::function<void()>> make_threads(char outcome, const std::string&
 }  // namespace
 
 int main(int argc, char** argv) {
+  // std::terminate() inside the library (drop()'s default branch, a noexcept violation ...): log it and
+  // park the virtual thread, so that the run ends as a dsched 'deadlock' that prints the schedule
+  // and the trace instead of a bare abort
+  std::set_terminate([] {
+    if (dsched::active()) {
+      dsched::action("TERMINATE");
+      dsched::block_until([] { return false; });
+    }
+    std::abort();
+  });
   auto cli = vh::parse_cli(argc, argv);
   std::string scope = cli.prog.at(0);
   char outcome = cli.prog.at(1)[0];
@@ -301,8 +331,10 @@ int main(int argc, char** argv) {
   // Direct monitor (the property evaluated on the implementation's own run).  The verdict starts
   // with a tag naming the kind of failure; tools/props/c09.py turns it into the violation key.
   auto monitor = [&](const dsched::Result& r) -> std::string {
-    bool freed = false; int roots = 0; std::string end, uaf, badd;
+    bool freed = false, threw = false; int roots = 0; std::string end, uaf, badd;
+    bool spawnfault = prog == "allocthrow" || prog == "connthrow";
     for (auto& e : r.trace) {
+      if (e.find("!spawn threw") != std::string::npos) threw = true;
       if (e.find("!fut.dealloc") != std::string::npos) { freed = true; continue; }
       if (e.find("!root ") != std::string::npos) ++roots;
       if (e.find("!val.dtor BAD") != std::string::npos && badd.empty()) badd = e;
@@ -317,11 +349,21 @@ int main(int argc, char** argv) {
     if (std::sscanf(end.c_str(), "allocs=%d deallocs=%d valc=%d vald=%d badd=%d exc=%d roots=%d scope=%zu opstop=%d",
                     &allocs, &deallocs, &valc, &vald, &bad, &exc, &rts, &sc, &opstop) != 9)
       return "END: no final counters";
-    if (allocs != 1 || deallocs != 1) return "ALLOC: allocations=" + std::to_string(allocs) + " deallocations=" + std::to_string(deallocs);
+    if (spawnfault && !threw) return "SPAWN: the exception did not propagate out of spawn_future";
+    if (allocs != (prog == "allocthrow" ? 0 : 1) || deallocs != allocs) return "ALLOC: allocations=" + std::to_string(allocs) + " deallocations=" + std::to_string(deallocs);
     if (valc != vald) return "VALUE: tracked value constructions=" + std::to_string(valc) + " destructions=" + std::to_string(vald);
     if (exc != 0) return "EXC: stored exception leaked (live exception objects at the end=" + std::to_string(exc) + ")";
-    int want = (prog == "drop" || prog == "conndrop") ? 0 : 1;
+    int want = (prog == "drop" || prog == "conndrop" || spawnfault) ? 0 : 1;
     if (roots != want) return "ROOT: completions of the awaiting receiver=" + std::to_string(roots);
+    for (auto& e : r.trace) {   // the payload: the operation's own value / error (or the exception of the failed copy)
+      auto p = e.find("!root ");
+      if (p == std::string::npos) continue;
+      std::string w = e.substr(p + 6);
+      std::string okv = "value 42", oke = std::string("error ") + (outcome == 'e' ? "5" : "7");
+      bool ok = w == "done" || (w == okv && outcome == 'v' && !fault) ||
+                (w == oke && (outcome == 'e' || (outcome == 'v' && fault)));
+      if (!ok) return "RESULT: the future delivered '" + w + "' for operation outcome " + std::string(1, outcome) + (fault ? " (copy throws)" : "");
+    }
     if (sc != 0) return "SCOPE: scope word at the end=" + std::to_string(sc);
     return "";
   };
